@@ -162,6 +162,7 @@ TPerftNode ==
          /\ \A i \in 1..Len(e.children) :
               LET c == e.children[i] IN
               /\ (IF c.mv \notin ms THEN TRUE ELSE Diag("C02", Apply(p, c.mv) = Norm(c.next), [kind |-> "perft child position", pos |-> ToFen(p), mv |-> Lan(c.mv)]))
+              /\ Diag("C01", c.count = c.sub, [kind |-> "perft count of a child differs from the perft of that child", pos |-> ToFen(p), mv |-> Lan(c.mv), count |-> c.count, sub |-> c.sub])
               /\ (IF (e.depth # 2 \/ c.mv \notin ms) THEN TRUE ELSE Diag("C01", c.count = Cardinality(Legal(Apply(p, c.mv))), [kind |-> "perft leaf count", pos |-> ToFen(p), mv |-> Lan(c.mv)]))
   /\ UNCHANGED <<pos, dom, consts>>
 
